@@ -395,7 +395,7 @@ func (a *App) DeviceAuth(form url.Values, basic *Basic) *Resp {
 
 // DeviceVerify is the application's verification page: the user enters the user code and accepts or rejects.
 // Returns "" on success or a reason the page refused the code.
-func (a *App) DeviceVerify(userCode string, accept bool, subject string, grant []string) string {
+func (a *App) DeviceVerify(userCode string, accept bool, subject string, grant []string, grantAud []string) string {
 	t, ctx := a.task()
 	_ = t
 	us, err := a.W.Device.UserCodeSignature(ctx, userCode)
@@ -422,7 +422,9 @@ func (a *App) DeviceVerify(userCode string, accept bool, subject string, grant [
 				}
 			}
 			for _, aud := range r.GetRequestedAudience() {
-				r.GrantAudience(aud)
+				if grantAud == nil || fosite.Arguments(grantAud).Has(aud) {
+					r.GrantAudience(aud)
+				}
 			}
 			if ss, ok := r.GetSession().(*SimSession); ok {
 				ss.SetSubject(subject)
